@@ -16,7 +16,6 @@ Three things per run:
 """
 import json
 import os
-import random
 
 import common as C
 from common import f2b
@@ -302,7 +301,6 @@ class Gen:
 
 
 def gen_seq(rng, nops, forced=None):
-    u = rng.random()
     roots = rng.randrange(1, 6)
     children = rng.choice([0, 0, 1, 2, 2, 3, 4])
     dim = rng.choice([1, 2, 2, 3, 3])
